@@ -77,6 +77,10 @@ example : [("a".toList, "7".toList), ("b".toList, "v".toList)].Perm [("b".toList
   List.Perm.swap _ _ _
 example : ([("a".toList, "7".toList), ("b".toList, "v".toList)].map (·.1)).Nodup := by decide
 example : Data.primOf (parseRoot Data.benv Data.ctx {} "Plain".toList Data.plainDoc) "a" = some (.int 7) := by decide
+-- hypothesis `ctxAttrOrderOk` of attr_order_invariant_root: `Data.ctx` itself also holds class `Root` (an
+-- `Attributes` dictionary, the excluded case) and does NOT satisfy it; the universe with `Plain` alone does
+example : ctxAttrOrderOk { Data.ctx with classes := [Data.plainClass] } = true := by decide
+example : ctxAttrOrderOk Data.ctx = false := by decide
 
 /-- the order of an `Attributes` dictionary is visible in the model's association list (and in
 `dict` iteration order in Python), although the two dictionaries are equal as Python objects:
@@ -279,6 +283,10 @@ theorem prefix_invariant_node (e : BEnv) (Γ : Ctx) (cfg : ParserConfig) (hΓ : 
 example : ctxNoQ Data.ctx = true := by decide
 example : treeOk Data.plainDoc = true := by decide
 example : treeOk Data.rootDocPP = true := by decide   -- `k="p:bar"` with only `pp` declared is fine
+-- two different spellings prefix_invariant_partial identifies: `rootDocPP` and the same element without any declaration
+example : treeOk (.node "Root".toList [("k".toList, "p:bar".toList)] [] none [] none) = true
+    ∧ eraseNs Data.rootDocPP = eraseNs (.node "Root".toList [("k".toList, "p:bar".toList)] [] none [] none) :=
+  ⟨by decide, rfl⟩
 
 /-- **xsiType_prefix_invariant**: `ParserUtils.xsi_type` depends on the prefix of a
 lexical QName `p:l` only through the namespace the prefix is bound to: another prefix
